@@ -451,5 +451,19 @@ func (e *FieldAccessExpr) String() string {
 }
 
 func (e *FieldAccessExpr) ReturnType() Type {
+	// The elements of a list built from numbers are numbers. What a JSON
+	// document, or a list read from text, holds is only known at run time
+	// and is handled as a string
+	if fname, err := GetFuncNameFromExpr(e.Left); err == nil {
+		call := e.Left.(*FunctionCallExpr)
+		switch fname {
+		case "int_list", "ilist", "float_list", "flist":
+			return TNUMBER
+		case "list":
+			if len(call.Args) > 0 && call.Args[0].ReturnType() == TNUMBER {
+				return TNUMBER
+			}
+		}
+	}
 	return TSTR
 }
